@@ -49,5 +49,10 @@ def run(ctx):
                                   "Crng.Props.C01.blacklisted_nowhere", "Crng.Props.C01.unroutable_iff", "Crng.Props.C01.outcome_partition"],
              ties=[common.CODE_TABLE, common.CODE_ROUTE, common.CODE_MATCHER])
     cs = cases(ctx, "t", ctx.scale(150, 3000), 25)
+    # "exactly once to each matching route" also while the table is being changed: a Dispatch held inside the pipeline during
+    # admin operations (C18's in-flight stream, fewer cases) must have done what some complete table of that history does
+    from . import c18
+    ctx.stream("in-flight", "midflight", c18.inflight_cases(ctx.rng("c01f"), ctx.scale(8, 100)), model=False, monitor=c18.inflight_monitor, shrink=False,
+               timeout=ctx.scale(600, 3000), classify=lambda l, o: "changes=%d" % (sum(1 for x in l if x.startswith("probe ")) - 1))
     ctx.stream("table", "table", cs, classify=classify, nontrivial=nontrivial, spec_exact=True, timeout=ctx.scale(600, 3000),
                removable=lambda l: l.startswith(("in ", "inm ", "aggin ")))
